@@ -14,11 +14,11 @@ import json
 import common
 from common import coq_list, coq_N
 
-IMPORTS = 'From XV Require Import Base Tree SchemaPath.'
+IMPORTS = 'From XV Require Import Base Tree SchemaPath SubstPath.'
 NS = 'urn:p'
 NAMES = {'root': 1, 'a': 2, 'b': 3, 'c': 4, 'item': 5, 'g': 6, 'h': 7, 'm': 8, 'leaf': 9, 'deep': 10, 'qn': 11,
-         'hc': 12, 'mc': 13, 'v': 14, 'x': 15}
-TYPES = {'xs:int': 11, 'xs:date': 12, 'xs:string': 13, 'xs:boolean': 14, 'xs:QName': 15, 'complex': 20}
+         'hc': 12, 'mc': 13, 'v': 14, 'x': 15, 'mr': 16}
+TYPES = {'xs:int': 11, 'xs:date': 12, 'xs:string': 13, 'xs:boolean': 14, 'xs:QName': 15, 'xs:decimal': 16, 'xs:integer': 17, 'complex': 20}
 
 
 XSDNS_SCHEMA = ('<schema xmlns="http://www.w3.org/2001/XMLSchema">'       # no target namespace, XSD as default namespace
@@ -41,7 +41,11 @@ def schema_xsd(ns, uri=NS, xsd_default=False):
             '<xs:element name="g" type="xs:boolean"/>'
             '<xs:element name="h" type="xs:string"/><xs:element name="m" type="xs:string" substitutionGroup="%sh"/>'
             # a substitution member with a type of its own (extension of the head's type): paths that go through it
-            '<xs:complexType name="HT"><xs:sequence><xs:element name="v" type="xs:string" minOccurs="0"/></xs:sequence></xs:complexType>'
+            '<xs:complexType name="HT"><xs:sequence><xs:element name="v" type="xs:decimal" minOccurs="0"/></xs:sequence></xs:complexType>'
+            # ... and a member whose type restricts the head's type, re-declaring the child with a narrower type
+            '<xs:complexType name="RT"><xs:complexContent><xs:restriction base="P:HT"><xs:sequence><xs:element name="v" type="xs:integer" '
+            'minOccurs="0"/></xs:sequence></xs:restriction></xs:complexContent></xs:complexType>'
+            '<xs:element name="mr" type="P:RT" substitutionGroup="P:hc"/>'
             '<xs:complexType name="MT"><xs:complexContent><xs:extension base="P:HT"><xs:sequence><xs:element name="x" type="xs:int" '
             'minOccurs="0"/></xs:sequence></xs:extension></xs:complexContent></xs:complexType>'
             '<xs:element name="hc" type="P:HT"/><xs:element name="mc" type="P:MT" substitutionGroup="P:hc"/>'
@@ -75,9 +79,18 @@ def decl_tree():
     return ('root', 'complex', [
         ('a', 'complex', [('item', 'xs:int', [])]),
         ('b', 'complex', [('item', 'xs:date', []), ('g', 'xs:boolean', []), ('qn', 'xs:QName', [])]),
-        ('c', 'complex', [('h', 'xs:string', []), ('m', 'xs:string', []), ('deep', 'complex', deep(4)),
-                          ('hc', 'complex', [('v', 'xs:string', [])]), ('mc', 'complex', [('v', 'xs:string', []), ('x', 'xs:int', [])])]),
+        # (only the heads are children of c: the members of their substitution groups are in SMAP)
+        ('c', 'complex', [('h', 'xs:string', []), ('deep', 'complex', deep(4)), ('hc', 'complex', [('v', 'xs:decimal', [])])]),
     ])
+
+
+# substitution group members: name -> (head, the member's own global declaration)
+MEMBERS = [('m', 'h', ('m', 'xs:string', [])), ('mc', 'hc', ('mc', 'complex', [('v', 'xs:decimal', []), ('x', 'xs:int', [])])),
+           ('mr', 'hc', ('mr', 'complex', [('v', 'xs:integer', [])]))]
+
+
+def coq_smap():
+    return coq_list(['(%s, (%s, %s))' % (coq_N(NAMES[m]), coq_N(NAMES[h]), coq_decl(d)) for m, h, d in MEMBERS])
 
 
 def coq_decl(d):
@@ -111,10 +124,15 @@ def gen_doc(rng, invalid=False, simple=False):
         if rng.random() < 0.7:
             ks.append(el('deep', kids=deep(3)))
         for _k in range(rng.choice([0, 0, 1, 2])):
-            if rng.random() < 0.5:
-                ks.append(el('hc', kids=[el('v', 'w')] if rng.random() < 0.7 else []))
+            r3 = rng.random()
+            if r3 < 0.35:
+                ks.append(el('hc', kids=[el('v', rng.choice(['1.5', '2']))] if rng.random() < 0.7 else []))
+            elif r3 < 0.7:
+                ks.append(el('mc', kids=([el('v', rng.choice(['1.5', '2']))] if rng.random() < 0.5 else []) +
+                             ([el('x', str(rng.randint(0, 9)))] if rng.random() < 0.7 else [])))
             else:
-                ks.append(el('mc', kids=([el('v', 'w')] if rng.random() < 0.5 else []) + ([el('x', str(rng.randint(0, 9)))] if rng.random() < 0.7 else [])))
+                # (with `invalid`, also a decimal where the member's type wants an integer)
+                ks.append(el('mr', kids=[el('v', '1.5' if invalid and rng.random() < 0.5 else str(rng.randint(0, 9)))] if rng.random() < 0.8 else []))
         kids.append(el('c', kids=ks))
     doc = el('root', kids=kids)
     if invalid:
@@ -246,9 +264,11 @@ def subject(case):
             try:
                 found = s.find(p, namespaces=nsmap)
                 u = used.get(id(elems[a]))
-                if u is not None and found is not u and (found is None or found.name != elems[a].tag):
-                    # a substitution-group member: find() gives the head particle (and nothing for the children that only the
-                    # member's type declares), get_element() - the lookup that validation uses - resolves the member
+                if u is not None and found is not u and (found is None or found.name != elems[a].tag or
+                                                         any(elems[a[:k]].tag.split('}')[-1] in ('mc', 'mr') for k in range(1, len(a)))):
+                    # a substitution-group member: find() gives the head particle (nothing for the children that only the
+                    # member's type declares, the head's child for those that the member's type re-declares), get_element() -
+                    # the lookup that validation uses - resolves the member and the declarations below it
                     found = s.get_element(elems[a].tag, p, nsmap)
                 r['find'] = None if found is None else [found.name, 'complex' if found.type.is_complex() else (found.type.name or '?')]
                 r['used'] = None if u is None else [u.name, 'complex' if u.type.is_complex() else (u.type.name or '?')]
@@ -375,8 +395,10 @@ def evaluate(ctx, cases):
             continue
         for k, r in enumerate(o['paths']):
             if r['positions']:
-                terms.append('(match find_schema %s (names_along %s %s) with Some d => Some (d_name d, d_ty d) | None => None end)'
-                             % (decl, coq_tree(c['doc']), coq_list([str(i) for i in r['addr']])))
+                # the lookup that resolves every step from the declaration found for its parent (SubstPath.get_parent, proved
+                # equal to the governing declaration: C20_lookup_from_parent_is_governing)
+                terms.append('(match get_parent %s %s (names_along %s %s) with Some d => Some (d_name d, d_ty d) | None => None end)'
+                             % (coq_smap(), decl, coq_tree(c['doc']), coq_list([str(i) for i in r['addr']])))
                 owner.append((ci, k))
     model = dict(zip(owner, common.coq_eval('C20', IMPORTS, '', terms, shard=200)))
     rev_n = {v: k for k, v in NAMES.items()}
@@ -409,7 +431,7 @@ def evaluate(ctx, cases):
             else:
                 if r['part'] != r['want']:
                     problems.append('decoding with path=%s gives %s, the full decoding has %s there'
-                                    % (r['path'], json.dumps(r['part'])[:120], json.dumps(r['want'])[:120]))
+                                    % (r['path'], json.dumps(r["part"], default=str)[:120], json.dumps(r["want"], default=str)[:120]))
                 if r['positions'] is True:
                     # a path with positions selects one node: a duplicate needs two, the uniqueness errors of the scope above
                     # the selection cannot be expected from validating that node alone
@@ -440,7 +462,7 @@ def evaluate(ctx, cases):
                 problems.append('decode(max_depth=%s) raised %s' % (k, v))
             elif v[0] != v[1]:
                 problems.append('decode(max_depth=%s) gives %s, the full decoding cut at that depth is %s'
-                                % (k, json.dumps(v[0])[:140], json.dumps(v[1])[:140]))
+                                % (k, json.dumps(v[0], default=str)[:140], json.dumps(v[1], default=str)[:140]))
         if problems or aux:
             ctx.violation('%s [XSD %s] %s' % ('; '.join((problems or aux)[:3]), c['version'], xml[:150]),
                           dict(rep, impl={'paths': o['paths'][:4]}, theorem='C20_find_governs / C20_partial_decode / C20_depth_cut'),
